@@ -1,5 +1,5 @@
 #!/usr/bin/env python3
-"""Prints the markdown table of seeded changes for DESIGN.md section 23."""
+"""Prints the markdown table of seeded changes for DESIGN.md section 23 (--write: replaces it in DESIGN.md)."""
 import glob, json, os
 rows = []
 for f in sorted(glob.glob("/verif/seeded/*/meta.json")):
@@ -16,6 +16,15 @@ for f in sorted(glob.glob("/verif/seeded/*/meta.json")):
     suite = {True: "pass", False: "flaky pkg/cli/cmd (see meta)", None: "n/a"}.get(c.get("suite_pass"))
     rows.append("| %s | %s | %s | %s | %s | %s |" % (m["id"], (m.get("summary") or "")[:150].replace("|", "/"), conf, suite,
                  ", ".join(det) if det else "**not reported**", ", ".join(sorted(set(mons)))[:120]))
-print("| id | change | confirmed (applies, builds, demo fails with / passes without) | existing suite | reported by check | monitor(s) |")
-print("|----|--------|------|------|------|------|")
-print("\n".join(rows))
+import sys
+table = "\n".join(["| id | change | confirmed (applies, builds, demo fails with / passes without) | existing suite | reported by check | monitor(s) |",
+                   "|----|--------|------|------|------|------|"] + rows)
+if "--write" in sys.argv:
+    p = "/verif/DESIGN.md"
+    s = open(p).read()
+    b, e = "<!-- SEEDED-TABLE-BEGIN -->", "<!-- SEEDED-TABLE-END -->"
+    i, j = s.index(b), s.index(e)
+    open(p, "w").write(s[:i] + b + "\n" + table + "\n" + s[j:])
+    print("wrote %d rows" % len(rows))
+else:
+    print(table)
